@@ -373,6 +373,10 @@ class TrajArm(Arm):
         if not np.all(np.isfinite(a0)) or np.max(np.abs(a0)) > 1e6:
             res.rejected = "trajectory not benign"
             return res
+        if adaptive and np.max(np.abs(a0)) > 50.0 * (1.0 + np.max(np.abs(a0[0]))):
+            # (two adaptive integrations of a rapidly growing solution differ by the solver tolerance times the growth)
+            res.rejected = "trajectory grows too fast for a comparison of adaptive solvers"
+            return res
         try:
             df = run_circuit(spec, T, dt, dict(outputs), solver=solver, backend=be, vectorize=vec, dts=dts,
                              inputs=dict(inputs) if inputs else None, **kw)
